@@ -61,9 +61,10 @@ func createDefaultHTTPClient() *http.Client {
 }
 
 const (
-	ConstSessionTimeout      = 86400          // Session timeout in seconds
-	defaultBlacklistDuration = 24 * time.Hour // Default duration to blacklist a JTI
-	maxIncomingPathLength    = 1024           // Longer request URIs are not remembered across a login
+	ConstSessionTimeout      = 86400            // Session timeout in seconds
+	defaultBlacklistDuration = 24 * time.Hour   // Default duration to blacklist a JTI
+	maxIncomingPathLength    = 1024             // Longer request URIs are not remembered across a login
+	metadataRetryInterval    = 30 * time.Second // Pause between rounds of provider discovery attempts
 )
 
 // TokenVerifier interface for token verification
@@ -456,12 +457,12 @@ func New(ctx context.Context, next http.Handler, config *Config, name string) (h
 func (t *TraefikOidc) initializeMetadata(providerURL string) {
 	t.logger.Debug("Starting provider metadata discovery")
 
-	// Get metadata from cache or fetch it
+	// Get metadata from cache or fetch it; keep trying until the provider answers.
 	metadata, err := t.metadataCache.GetMetadata(providerURL, t.httpClient, t.logger)
-	if err != nil {
-		t.logger.Errorf("Failed to get provider metadata: %v", err)
-		// Consider retrying or handling this more gracefully
-		return
+	for err != nil || metadata == nil {
+		t.logger.Errorf("Failed to get provider metadata, will retry: %v", err)
+		time.Sleep(metadataRetryInterval)
+		metadata, err = t.metadataCache.GetMetadata(providerURL, t.httpClient, t.logger)
 	}
 
 	if metadata != nil {
